@@ -34,6 +34,8 @@ impl FqVarExtension for FqVar {
         // Note: `num = 1`
         // `y = sqrt(num/den)`
         let (was_square, y) = Fq::sqrt_ratio_zeta(&Fq::ONE, &den);
+        #[cfg(decaf377_verif)]
+        let (was_square, y) = verif_hooks::apply_isqrt_hint(den, was_square, y);
 
         let cs = self.cs();
         let was_square_var = Boolean::new_witness(cs.clone(), || Ok(was_square))?;
@@ -96,5 +98,28 @@ impl FqVarExtension for FqVar {
         let absolute_value =
             FqVar::conditionally_select(&self.is_nonnegative()?, &self, &self.negate()?)?;
         Ok(absolute_value)
+    }
+}
+
+#[cfg(decaf377_verif)]
+pub mod verif_hooks {
+    //! Verification-only hook (compiled only with `--cfg decaf377_verif`): lets a test
+    //! harness play a dishonest prover by substituting the out-of-circuit `isqrt` hint.
+    extern crate std;
+    use crate::Fq;
+    use core::cell::RefCell;
+    use std::boxed::Box;
+
+    std::thread_local! {
+        /// (den, honest flag, honest y) -> substituted (flag, y); `None` = honest prover.
+        pub static ISQRT_HINT: RefCell<Option<Box<dyn FnMut(Fq, bool, Fq) -> (bool, Fq)>>> =
+            RefCell::new(None);
+    }
+
+    pub(super) fn apply_isqrt_hint(den: Fq, was_square: bool, y: Fq) -> (bool, Fq) {
+        ISQRT_HINT.with(|h| match h.borrow_mut().as_mut() {
+            Some(f) => f(den, was_square, y),
+            None => (was_square, y),
+        })
     }
 }
